@@ -410,6 +410,102 @@ fn run_one(cx: &Ctx<'_>, cfg: &Cfg, prefix: &[usize], allow_dev: bool) -> Outcom
     Outcome { exec: out }
 }
 
+/// Crowd family: one real initiator, one truthful but talkative contact and `crowd` responsive scripted peers. The
+/// contact's reply names the whole crowd in one list (more than the lookup's candidate queue holds when crowd > 200,
+/// so part of it is dropped — the closest part when the list is ordered farthest-first); every other peer answers
+/// with the K closest peers. Everybody answers in time, so the result must be exactly the K closest peers.
+fn crowd_case(cx: &Ctx<'_>, crowd: u32, farthest_first: bool, k: usize) {
+    let rt = paused_runtime();
+    rt.block_on(async {
+        saorsa_core::verif_hooks::clear_sockets();
+        let world = World::new();
+        let bits = 8u32;
+        let key = key_with_prefix(0, bits, 77);
+        let me = make_node(&world, 0, &NodeSpec { tid: tid_with_prefix(255, bits, 0), app_id: None, k }).await;
+        // contact (prefix 254) and the crowd (prefixes 1..=crowd, distance to the key grows with the prefix)
+        let addr_of = |p: u32| -> std::net::SocketAddr { format!("{}.{}.1.1:9000", 30 + p / 250, p % 250).parse().unwrap() };
+        let contact = tid_with_prefix(254, bits, 1);
+        world.add_endpoint(contact, addr_of(254), true);
+        let mut peers: Vec<([u8; 32], u32)> = Vec::new();
+        for p in 1..=crowd {
+            let t = tid_with_prefix(p.min(253), bits, 2000 + p);
+            world.add_endpoint(t, addr_of(p), true);
+            peers.push((t, p));
+        }
+        let dist = |t: &[u8; 32]| xor_dist(&dht_key_of(&hex::encode(t)), &key);
+        peers.sort_by_key(|(t, _)| dist(t));
+        let addr_by_tid: BTreeMap<String, String> = peers.iter().map(|(t, p)| (hex::encode(t), addr_of(*p).to_string())).collect();
+        let _ = me.transport.connect_peer(&addr_of(254).to_string()).await;
+        settle().await;
+        let trace_start = world.trace().len();
+        let m = me.mgr.clone();
+        let h = tokio::spawn(async move { m.find_closest_nodes(&key, k).await });
+        let mut ch = Chooser::new(&[]);
+        let t0 = tokio::time::Instant::now();
+        let mk = |t: &[u8; 32]| DHTNode { peer_id: hex::encode(t), address: addr_by_tid[&hex::encode(t)].clone(), distance: None, reliability: 1.0, cached_dht_key: None };
+        loop {
+            settle().await;
+            match ch.next(&world, !h.is_finished(), &[]) {
+                Action::Deliver(f) => {
+                    if let Some(fr) = world.deliver(f.seq) {
+                        if let Some(msg) = fr.info.dht.as_ref() {
+                            if fr.dst != me.tid_hex && matches!(msg.message_type, DhtMessageType::Request) {
+                                if let DhtNetworkOperation::FindNode { key: k2 } = &msg.payload {
+                                    let list: Vec<DHTNode> = if fr.dst == hex::encode(contact) {
+                                        let mut l: Vec<DHTNode> = peers.iter().map(|(t, _)| mk(t)).collect();
+                                        if farthest_first {
+                                            l.reverse();
+                                        }
+                                        l
+                                    } else {
+                                        peers.iter().take(k).map(|(t, _)| mk(t)).collect()
+                                    };
+                                    let rsp = dht_response(msg, &fr.dst, DhtNetworkResult::NodesFound { key: *k2, nodes: list });
+                                    world.enqueue(&fr.dst, &fr.src, dht_frame(&fr.dst, &rsp));
+                                }
+                            }
+                        }
+                    }
+                }
+                Action::Advance => tokio::time::sleep(REQUEST_TIMEOUT).await,
+                Action::Done => break,
+                _ => {}
+            }
+            if t0.elapsed() > Duration::from_secs(900) || ch.points.len() > 3000 {
+                break;
+            }
+        }
+        cx.distinct.eval();
+        let trace: Vec<Ev> = world.trace()[trace_start..].to_vec();
+        let names: BTreeMap<String, String> = peers.iter().enumerate().map(|(r, (t, _))| (hex::encode(t), format!("P{r}"))).chain([(me.tid_hex.clone(), "N0".to_string()), (hex::encode(contact), "contact".to_string())]).collect();
+        let queried: BTreeSet<String> = trace.iter().filter_map(|e| match e { Ev::Sent { from, to, kind, .. } if *from == me.tid_hex && kind.starts_with("dht-req") => Some(names.get(to).cloned().unwrap_or(short(to))), _ => None }).collect();
+        let wit = |extra: Value| json!({"family": "crowd", "crowd": crowd, "contact_reply_order": if farthest_first { "farthest first" } else { "closest first" }, "k": k, "queried": queried, "detail": extra, "trace_len": trace.len()});
+        let ft = |shape: &str| feats(&[("shape", shape.into()), ("liar", "none".into()), ("family", "crowd".into())]);
+        if !h.is_finished() {
+            h.abort();
+            cx.run.violation_lazy("C01.term", ft("lookup-did-not-finish"), || (wit(json!({})), format!("crowd {crowd}: the lookup did not finish")));
+            return;
+        }
+        let res = h.await.map_err(|e| e.to_string()).and_then(|r| r.map_err(|e| e.to_string()));
+        let want: Vec<String> = peers.iter().take(k).map(|(t, _)| hex::encode(t)).collect();
+        match res {
+            Err(e) => cx.run.violation_lazy("C01.term", ft("lookup-failed"), || (wit(json!({"error": e})), format!("crowd {crowd}: the lookup failed although every peer answers: {e}"))),
+            Ok(list) => {
+                let got: Vec<String> = list.iter().map(|n| n.peer_id.clone()).collect();
+                cx.distinct.outcome(&("crowd", crowd, farthest_first, got.len(), got == want));
+                let gs: BTreeSet<&String> = got.iter().collect();
+                let ws: BTreeSet<&String> = want.iter().collect();
+                if gs != ws {
+                    let missing: Vec<String> = want.iter().filter(|w| !gs.contains(w)).map(|w| names[w].clone()).collect();
+                    let g2: Vec<String> = got.iter().map(|g| names.get(g).cloned().unwrap_or(short(g))).collect();
+                    cx.run.violation_lazy("C01.closure", ft("closer-responsive-peer-named-in-replies-but-not-returned"), || (wit(json!({"returned_ranks": g2, "missing_ranks": missing})), format!("crowd {crowd}: every peer answers, yet the result {g2:?} lacks the closer peers {missing:?} that replies named")));
+                }
+            }
+        }
+    });
+    cx.execs.fetch_add(1, Ordering::Relaxed);
+}
+
 fn main() {
     let run = Run::new("C01", "model_checking");
     quiet_panics();
@@ -524,6 +620,20 @@ fn main() {
     let mut cfg_done = 0u64;
     let mut selfcheck_ok = true;
     if parent.is_none() {
+        // crowd family (candidate-queue capacity): default schedule, every peer responsive
+        let mut crowd_cases: Vec<(u32, bool, usize)> = Vec::new();
+        for crowd in run.tier.pick(vec![199u32, 201, 230], vec![199, 200, 201, 202, 230, 250]) {
+            for ff in [true, false] {
+                for k in run.tier.pick(vec![8usize], vec![3, 8]) {
+                    crowd_cases.push((crowd, ff, k));
+                }
+            }
+        }
+        for (j, (crowd, ff, k)) in crowd_cases.iter().enumerate() {
+            if run.mine(cfgs.len() + j) && !budget.exceeded() {
+                crowd_case(&cx, *crowd, *ff, *k);
+            }
+        }
         for (ci, (cfg, bound)) in cfgs.iter().enumerate() {
             if !run.mine(ci) {
                 continue;
